@@ -40,13 +40,15 @@ Definition tr_fop (op : fd_op) : f_op :=
   match op with
   | FSetitem _ _ | FDelitem _ | FUpdate _ | FIor _ | FSetdefault _ _ | FPop _ _ | FPopitem | FClear => SFMutator
   | FHash => SFHash | FGet k => SFGet k | FUpdated kvs => SFUpdated kvs | FCopy => SFCopy | FClone _ => SFPickle
+  | FXProc => SFXProc
   end.
 Definition tr_hout (h : hout) : f_res :=
   match h with HOk z => FOkHash z | HRaise => FRaise FrozenHashErr | HNA => FOkNone end.
 Definition tr_fres (r : res fval) : f_res :=
   match r with
   | Ok FNone => FOkNone | Ok (FTok n) => FOkTok n | Ok (FHashV h) => FOkHash h
-  | Ok (FNew items s e h) => FOkNew items s e (tr_hout h) | Raise e => FRaise e
+  | Ok (FNew items s e h) => FOkNew items s e (tr_hout h) | Ok (FX items s e m) => FOkX items s e m
+  | Raise e => FRaise e
   end.
 
 (* ---- exact comparison of observations -------------------------------------- *)
@@ -55,6 +57,8 @@ Definition fval_eqb (a b : fval) : bool :=
   | FNone, FNone => true
   | FTok x, FTok y => Nat.eqb x y
   | FHashV x, FHashV y => Z.eqb x y
+  | FX i s e m, FX i' s' e' m' =>
+      list_eqb kv_eqb i i' && Bool.eqb s s' && Bool.eqb e e' && option_eqb Bool.eqb m m'
   | FNew i s e h, FNew i' s' e' h' =>
       list_eqb kv_eqb i i' && Bool.eqb s s' && Bool.eqb e e' &&
       match h, h' with
